@@ -135,9 +135,24 @@ func genSession(r *h.Rand, n int, big bool) []rmsg {
 // again. Nothing of an earlier write may stick to the object.
 var c01Reuse = map[[2]uint32]*rtmp.Message{}
 
+// c01Touched: writes that changed the caller's payload buffer (reported at the end of c01).
+var c01Touched []string
+
 func writeSession(p *rtmp.Protocol, ms []rmsg) string {
 	return h.Safe(func() string {
 		for i, m := range ms {
+			// the payload is the caller's: a slice with spare capacity behind it (part of a larger buffer); neither the
+			// payload nor the bytes behind it may be touched by the write
+			arena := make([]byte, len(m.payload)+8)
+			copy(arena, m.payload)
+			copy(arena[len(m.payload):], "\x5a\x5a\x5a\x5a\x5a\x5a\x5a\x5a")
+			orig := m.payload
+			m.payload = arena[:len(orig)]
+			defer func(i int) {
+				if !bytes.Equal(arena[:len(orig)], orig) || string(arena[len(orig):]) != "\x5a\x5a\x5a\x5a\x5a\x5a\x5a\x5a" {
+					c01Touched = append(c01Touched, fmt.Sprintf("message %d (%d bytes): the caller's buffer changed during WriteMessage", i, len(orig)))
+				}
+			}(i)
 			key := [2]uint32{m.cid, m.sid}
 			msg := c01Reuse[key]
 			if msg == nil || i%3 == 2 { // every third message through a fresh object
@@ -182,6 +197,14 @@ func readSession(p *rtmp.Protocol, k int) ([]string, string) {
 
 func c01(c *h.Ctx) {
 	r := c.R
+	defer func() {
+		for i, m := range c01Touched {
+			if i < 3 {
+				c.Hold(false, "write.caller_buffer_untouched", m, "changed", "unchanged")
+			}
+		}
+		c01Touched = nil
+	}()
 	nsess := c.N(150, 3000)
 	for s := 0; s < nsess; s++ {
 		big := r.Chance(15)
